@@ -51,7 +51,7 @@ def run(ctx):
     if not cases:
         cases = []
         pool = settings_pool(rng, 32 if ctx.quick() else 120)
-        n = 12000 if ctx.quick() else 1000000
+        n = 12000 if ctx.quick() else 300000
         auto_pool = pool[:3]
         for _ in range(n):
             s = gen_string(rng)
